@@ -139,8 +139,22 @@ VMODELS = {1: "buyukurganci-2022", 2: "herold-2017"}
 REGIONS = {1: "channel", 2: "reservoir"}
 
 
+NEAR = 1000     # value id v + NEAR: the value of id v, 2**-30 relative away
+FLOAT_KEYS = ("emodulus temperature", "emodulus viscosity", "frame rate",
+              "pixel size", "flow rate", "channel width")
+
+
+def is_float_key(key):
+    return key in FLOAT_KEYS or key.startswith("crosstalk")
+
+
 def cfg_value(kid, v):
     sec, key = ID_K[kid]
+    if v >= NEAR and is_float_key(key):
+        # differs from the value of id v - NEAR in the 10th significant
+        # digit: a cache key that formats or rounds the value loses it
+        base = cfg_value(kid, v - NEAR)
+        return base * (1 + 2.0 ** -30) if base != 0 else 2.0 ** -40
     if key == "emodulus lut":
         return LUTS[v]
     if key == "emodulus medium":
@@ -171,6 +185,16 @@ def cfg_value(kid, v):
 def cfg_value_choices(kid, rng, counter):
     """a value id for this key that was not used before in this case"""
     key = ID_K[kid][1]
+    v = _cfg_value_choice(kid, key, rng, counter)
+    last = counter.get(("last", kid))
+    if is_float_key(key) and last is not None and last < NEAR \
+            and rng.random() < 0.18:
+        v = last + NEAR
+    counter[("last", kid)] = v
+    return v
+
+
+def _cfg_value_choice(kid, key, rng, counter):
     counter[kid] = counter.get(kid, 0) + 1
     c = counter[kid]
     if key == "emodulus lut":
@@ -244,6 +268,10 @@ def temp_data(name, v, n=NEV):
     would not see them."""
     import numpy as np
     blk, kind = ((v - 1) // 3) * 3 if v >= 1 else -3, (v - 1) % 3
+    if name == "image_bg":
+        arr = (innate_data("image_bg", n).astype(int) + blk) % 256
+        arr[-1, -1, -1] = (arr[-1, -1, -1] + kind) % 256
+        return arr.astype(np.uint8)
     if name.startswith("ml_score_"):
         # rotating pattern so that the arg-max class changes with the block
         s = sum(name.encode()) % 5
@@ -263,7 +291,12 @@ def temp_data(name, v, n=NEV):
         arr = innate_data(name, n) + blk
         step = 1 / 16.0
     arr = np.array(arr, dtype=np.float64)
-    arr[-1] += kind * step
+    if kind == 1 and step:
+        # one trailing element, 2**-30 relative: invisible to a key made of
+        # a prefix, a rounded or a float32 copy of the data
+        arr[-1] = arr[-1] * (1 + 2.0 ** -30) if arr[-1] != 0 else 2.0 ** -30
+    else:
+        arr[-1] += kind * step
     if kind == 2:
         arr[-2] = np.nan
     return arr
@@ -305,9 +338,11 @@ def family_setup(rng, fam):
         reads = ["fl1_max_ctc", "fl2_max_ctc", "fl3_max_ctc"]
     elif fam == "img":
         ev = ["image", "image_bg", "mask", "pos_x", "pos_y"]
-        if rng.random() < 0.2:
-            ev.remove("image_bg")
         temps = ["bg_off"]
+        if rng.random() < 0.3:
+            # the background image as a (non-scalar) temporary feature
+            ev.remove("image_bg")
+            temps = ["bg_off", "image_bg"]
         keys = [kid("imaging", "pixel size")]
         reads = ["bright_bc_avg", "bright_bc_sd", "bright_perc_10",
                  "bright_perc_90", "bright_avg", "bright_sd", "volume",
@@ -318,7 +353,7 @@ def family_setup(rng, fam):
         if rng.random() < 0.7:
             reads = [r for r in reads if not r.startswith("bright_perc")]
         else:
-            temps = []
+            temps = [t for t in temps if t != "bg_off"]
     elif fam == "ml":
         ev = ["deform", "area_um"]
         temps = ["ml_score_abc", "ml_score_xyz"]
@@ -386,7 +421,12 @@ def emod_sweep_cases():
                                 [0, kid("imaging", "pixel size"), 2],
                                 [0, kid("setup", "flow rate"), 2],
                                 [0, kid("setup", "channel width"), 2],
-                                [0, kid("setup", "chip region"), 1]]
+                                [0, kid("setup", "chip region"), 1],
+                                [0, kid("imaging", "pixel size"), 1 + NEAR]]
+                        if tmp is not None:
+                            muts.append([0, ek["temperature"], tmp + NEAR])
+                        if visc is not None:
+                            muts.append([0, ek["viscosity"], visc + NEAR])
                         for k, v in ((ek["medium"], med),
                                      (ek["temperature"], tmp),
                                      (ek["viscosity"], visc),
@@ -417,6 +457,7 @@ def ctc_sweep_cases():
         for keys in (pairkeys, sorted(ck.values())):
             cfg0 = sorted([k, 1 + n] for n, k in enumerate(keys))
             muts = [[0, k, 9] for k in sorted(ck.values())]
+            muts += [[0, k, 1 + n + NEAR] for n, k in enumerate(keys)]
             muts += [[1, k, 0] for k in keys]
             muts += [[2, F_ID["fl%d_max" % c], 1] for c in (1, 2, 3)]
             for c in chans:
@@ -434,6 +475,13 @@ def gen_case(rng, thorough=False):
     fam = rng.choice(FAMILIES)
     fmt = rng.choice(["dict", "dict", "dict", "hdf5", "child", "child2"])
     ev, temps, keys, reads = family_setup(rng, fam)
+    nev = NEV
+    if rng.random() < 0.08:
+        # large arrays: versions of a temporary feature differ only in the
+        # last element (index 1499; last pixel of 40 images), far beyond any
+        # plausible "hash only the head of the data" prefix
+        fmt = "dict"
+        nev = 40 if fam in ("img", "mixed") else 1500
     counter = {"zero": fam in ("emod", "mixed") and rng.random() < 0.45}
     tcounter = {}
     cfg0 = {}
@@ -529,7 +577,7 @@ def gen_case(rng, thorough=False):
             ops.append([4, F_ID[rng.choice(reads)], 0])
         else:
             ops.append([5, 0, 0])
-    return dict(family=fam, fmt=fmt, events=ev,
+    return dict(family=fam, fmt=fmt, n=nev, events=ev,
                 temps0=sorted([F_ID[t], v] for t, v in temps0.items()),
                 cfg0=sorted([k, v] for k, v in cfg0.items()), ops=ops)
 
@@ -544,6 +592,7 @@ class Impl:
         self.case = case
         self.fmt = case["fmt"]
         self.events = list(case["events"])
+        self.n = case.get("n", NEV)
         self.scratch = scratch
         self.path = None
         self.opened = []
@@ -551,9 +600,9 @@ class Impl:
             from . import gen
             self.path = os.path.join(
                 scratch, "c06-%d-%d.rtdc" % (os.getpid(), id(case)))
-            feats = {f: innate_data(f) for f in self.events}
+            feats = {f: innate_data(f, self.n) for f in self.events}
             with_fl = any(f.startswith("fl") for f in feats)
-            spec = dict(n=NEV, features=feats,
+            spec = dict(n=self.n, features=feats,
                         meta=gen.base_meta(with_fl=with_fl))
             gen.write_spec(self.path, spec)
 
@@ -573,7 +622,8 @@ class Impl:
             ds = dclab.new_dataset(self.path)
             self.opened.append(ds)
             return ds
-        return dclab.new_dataset({f: innate_data(f) for f in self.events})
+        return dclab.new_dataset({f: innate_data(f, self.n)
+                                  for f in self.events})
 
     def build(self, cfg, temps):
         """dataset with exactly this state; returns (root, view)"""
@@ -585,7 +635,8 @@ class Impl:
             elif key in root.config[sec]:
                 root.config[sec].pop(key)
         for f, v in temps.items():
-            dclab.set_temporary_feature(root, ID_F[f], temp_data(ID_F[f], v))
+            dclab.set_temporary_feature(root, ID_F[f],
+                                        temp_data(ID_F[f], v, self.n))
         view = root
         if self.fmt in ("child", "child2"):
             root.filter.manual[1] = False
@@ -710,7 +761,7 @@ def run_impl(case, scratch):
                 cfg.pop(a, None)
                 changed_after_compute |= computed > 0
             elif tag == 2:
-                data = temp_data(ID_F[a], b)
+                data = temp_data(ID_F[a], b, im.n)
                 if im.fmt in ("child", "child2") and b % 2 == 0:
                     # through the hierarchy child: dclab maps the events to
                     # the root (NaN for the hidden ones) and refreshes the
@@ -821,6 +872,21 @@ def run_impl(case, scratch):
                                 op=i, what="features-vs-in", feature=n,
                                 ctx=ctx, desc="ds.features and `in` disagree "
                                               "on %r" % n))
+                    # features_ancillary: same judgement as `in`, on a
+                    # long-lived vs. a fresh dataset
+                    _fr, fresh = im.build(cfg, temps)
+                    fa = set(view.features_ancillary)
+                    fa0 = set(fresh.features_ancillary)
+                    gone = [n for n in sorted(root._ancillaries)
+                            if n not in fresh]
+                    for n in sorted(fa ^ fa0):
+                        fails.append(dict(
+                            op=i, what="in-vs-fresh", feature=n,
+                            ctx=dict(ctx, cached_unavailable=gone),
+                            listed=n in fa, listed0=n in fa0,
+                            desc="features_ancillary lists %r: %s on the "
+                                 "long-lived dataset, %s on a fresh one" % (
+                                     n, n in fa, n in fa0)))
         nontrivial = computed > 0 and changed_after_compute
     finally:
         im.close()
@@ -1079,7 +1145,7 @@ def corpus_case(c):
         else:
             ops.append(list(o))
     return dict(family=c.get("family", "corpus"), fmt=c.get("fmt", "dict"),
-                events=c["events"],
+                n=c.get("n", NEV), events=c["events"],
                 temps0=sorted([f(a), b] for a, b in c.get("temps0", [])),
                 cfg0=sorted([k(a), b] for a, b in c.get("cfg0", [])),
                 ops=ops)
@@ -1124,8 +1190,13 @@ def run(run):
     if not run.thorough:
         # a part of the exhaustive sweeps per quick run (all of them in the
         # thorough tier and in search())
-        sweep = sweep[run.seed % 6::6]
-        csweep = csweep[run.seed % 2::2]
+        # the slice rotates with VERIF_SEED and with the day, so that
+        # repeated quick runs cover the whole sweep
+        import time as _time
+        rot = run.seed + _time.gmtime().tm_yday
+        sweep = sweep[rot % 6::6]
+        csweep = csweep[rot % 2::2]
+        run.notes.append("sweep slice %d of 6 / %d of 2" % (rot % 6, rot % 2))
     run.count("emod-sweep", len(sweep))
     run.count("ctc-sweep", len(csweep))
     cases += sweep + csweep
@@ -1140,6 +1211,13 @@ def run(run):
         run.record_case(c, nontrivial)
         run.count("family=" + c["family"])
         run.count("fmt=" + c["fmt"])
+        if c["fmt"] in ("child", "child2"):
+            run.count("temp-set-through-child", sum(
+                1 for o in c["ops"] if o[0] == 2 and o[2] % 2 == 0))
+        if c.get("n", NEV) != NEV:
+            run.count("large-arrays(n=%d)" % c["n"])
+        run.count("near-values", sum(
+            1 for o in c["ops"] if o[0] == 0 and o[2] >= NEAR))
         for o in c["ops"]:
             run.count("op:" + ["setcfg", "delcfg", "settemp", "read",
                                "contains", "features"][o[0]])
@@ -1180,6 +1258,8 @@ def run(run):
                      % (len(coincid), stale_pred))
     emodulus_table(run)
     uses_sensitivity(run)
+    reqfunc_injectivity(run)
+    finding_witnesses(run)
     plugin_reload_check(run)
 
 
@@ -1376,6 +1456,22 @@ def _table_row(row):
             fail = ("emodulus table: documented scenario %d, listed=%s, "
                     "read code %d, inputs used %d" % (spec, listed, code,
                                                       taken), fid)
+    elif medv in OTHER_MEDIUM_IDS:
+        # medium "other": only a given viscosity makes sense (case B); a
+        # configuration without one is either unavailable or rejected on
+        # read (listed finding C06-emodulus-available-unreadable)
+        spec = documented_scenario(cfg, bool(has_temp))
+        if spec == 2 and not (listed and taken == 2):
+            fail = ("emodulus table (medium 'other'): case B expected, "
+                    "listed=%s, read code %d, inputs used %d" % (
+                        listed, code, taken), None)
+        elif spec == 0 and (listed or code == 0):
+            fail = ("emodulus table (medium 'other'): nothing to compute "
+                    "from, but listed=%s, read code %d" % (listed, code),
+                    None)
+        elif spec is None and code == 0:
+            fail = ("emodulus table (medium 'other'): no viscosity given, "
+                    "but a value was returned (inputs %d)" % taken, None)
     return [int(listed), scen_sel, taken], case, fail, notes
 
 
@@ -1425,6 +1521,116 @@ def emodulus_table(run):
         if m != i:
             run.mismatch(dict(kind="emodulus-table", row=list(r[:6]),
                               variant=r[6]), m, i, what="emodulus table")
+
+
+# --------------------------------------------------------------------------
+# witnesses of the listed findings in the model (booleans, not theorems)
+# --------------------------------------------------------------------------
+WITNESSES = [
+    ("w_registry_incomplete", ["C06-ctc-undeclared-crosstalk",
+                               "C06-emodulus-stale-viscosity"]),
+    ("w_emodulus_inputs", ["C06-emodulus-available-unreadable"]),
+    ("w_available_unreadable", ["C06-emodulus-available-unreadable"]),
+    ("w_cached_stays_listed", ["C06-cached-stays-listed"]),
+    ("w_stale_read", ["C06-ctc-undeclared-crosstalk"]),
+]
+
+
+def finding_witnesses(run):
+    """Evaluates the witnesses of Proofs/C06_registry.v on the regenerated
+    table and records them next to the status of the findings. A witness
+    that no longer holds while its finding is listed (or the reverse) is a
+    note for the maintainer of known_findings.json, never an alarm."""
+    src = (HEADER.replace("Gen.AncRegistry.", "Gen.AncRegistry "
+                          "Proofs.C06_registry.")
+           + "Eval vm_compute in finding_witnesses.\n")
+    try:
+        out = common.coq_eval(run.scratch, "c06_witnesses", src)
+        vals = common.parse_coq_zlists(out)[0]
+    except Exception as e:
+        run.notes.append("finding witnesses not evaluated: %s" % str(e)[:200])
+        return
+    status = {e["id"]: e.get("status") for e in run.findings}
+    rec = {}
+    for (name, ids), v in zip(WITNESSES, vals):
+        listed = any(status.get(i) == "finding" for i in ids)
+        rec[name] = dict(holds=bool(v), findings=ids, listed=listed)
+        if bool(v) != listed:
+            run.notes.append(
+                "witness %s %s in the model, but %s %s listed as finding" % (
+                    name, "holds" if v else "no longer holds", ids,
+                    "is" if listed else "is not"))
+    run.extra["finding_witnesses"] = rec
+
+
+# --------------------------------------------------------------------------
+# tie of "the hashed req_func result stands for the data it was made of"
+# --------------------------------------------------------------------------
+def _reqfunc_row(idx):
+    """The model treats the hashed (non-boolean) result of a req_func as the
+    full value of every feature the tracer saw it read ([ItReq]). Black box
+    on the real function: on a 1500-event dataset, changing ONE element of
+    such a feature by one ulp -- first, second, middle, beyond index 1000,
+    last -- must change obj2bytes(req_func(ds))."""
+    import numpy as np
+    import dclab
+    from dclab.util import obj2bytes
+    from dclab.rtdc_dataset.feat_anc_core import AncillaryFeature
+    from .translators import anc_trace
+    warnings.simplefilter("ignore")
+    row = SIDE["rows"][idx]
+    regs = list(AncillaryFeature.features)
+    inst = regs[idx]
+    anc = set(r.feature_name for r in regs)
+    n = 1500
+    feats = [x[1] for x in row["extra"] if x[0] == "data"]
+    base = anc_trace.base_closure(row["req_feats"], anc, regs)
+    base = [f for f in base if f not in ("image", "image_bg", "mask")] \
+        or ["deform"]
+    problems = []
+    data = {f: innate_data(f, n) for f in base}
+    ds = dclab.new_dataset(data)
+    arrs = {f: temp_data(f, 1, n) for f in feats}
+    for f, a in arrs.items():
+        dclab.set_temporary_feature(ds, f, a)
+    ret = inst.req_func(ds)
+    if isinstance(ret, bool):
+        return ["row %d (%s): req_func returns a bool although %s are "
+                "present; nothing of them enters the cache key" % (
+                    idx, row["name"], feats)]
+    ref = obj2bytes(ret)
+    for f, a in arrs.items():
+        for pos in (0, 1, n // 2, 1200, n - 1):
+            b = a.copy()
+            b[pos] = np.nextafter(b[pos], np.inf) if np.isfinite(b[pos]) \
+                else 0.5
+            dclab.set_temporary_feature(ds, f, b)
+            if obj2bytes(inst.req_func(ds)) == ref:
+                problems.append(
+                    "row %d (%s): the hashed req_func result does not change "
+                    "when element %d of %r changes by one ulp" % (
+                        idx, row["name"], pos, f))
+        dclab.set_temporary_feature(ds, f, a)
+    return problems
+
+
+def reqfunc_injectivity(run):
+    import multiprocessing as mp
+    rows = [i for i, r in enumerate(SIDE["rows"]) if r["rf_kind"] in (2, 3)
+            and any(x[0] == "data" for x in r["extra"])]
+    if not rows:
+        return
+    ctx = mp.get_context("fork")
+    with ctx.Pool(min(common.NCPU, len(rows)), initializer=_pool_init,
+                  initargs=(SIDE, common.REPO)) as pool:
+        res = pool.map(_reqfunc_row, rows, chunksize=1)
+    for idx, problems in zip(rows, res):
+        run.corr_checked += 1
+        run.count("reqfunc-injectivity-rows")
+        for pr in problems:
+            run.mismatch(dict(kind="reqfunc-injectivity", row=idx),
+                         "hashed result determines the data", pr,
+                         what="req_func result vs data")
 
 
 # --------------------------------------------------------------------------
